@@ -623,6 +623,9 @@ class _Rec(NamedTuple):
     h: bytes
     d: int = 0
 
+    TOP = 0x80
+    LOW = 0x11
+
     @property
     def d_bytes(self):
         return self.d.to_bytes(2, 'big')
@@ -637,7 +640,8 @@ class _Rec(NamedTuple):
 
 def f_namedtuple_members():
     r = _Rec(b'ab', 5)
-    return r.d_bytes, tuple(r.bump(2)), r.bump(2).d_bytes, tuple(_Rec.zero()), r[0], r.h, tuple(r), [x.d for x in (r, r.bump(1))], r == _Rec(b'ab', 5), len(r)
+    flags = [bool(x.d & x.TOP) for x in (_Rec(b'', 0x91), _Rec(b'', 0x11))] + [(x.d & ~x.TOP) == x.LOW for x in (_Rec(b'', 0x91), _Rec(b'', 0x51))]
+    return flags, _Rec.TOP, _Rec._fields, r.d_bytes, tuple(r.bump(2)), r.bump(2).d_bytes, tuple(_Rec.zero()), r[0], r.h, tuple(r), [x.d for x in (r, r.bump(1))], r == _Rec(b'ab', 5), len(r)
 
 
 def f_keyword_arguments():
